@@ -30,7 +30,7 @@ import impl
 import scan_units
 
 ID = 'C04'
-EXTRA_MODULES = ['Mistletoe.Proofs.Wrap', 'Mistletoe.Proofs.WrapIndent']
+EXTRA_MODULES = ['Mistletoe.Proofs.Wrap', 'Mistletoe.Proofs.WrapIndent', 'Mistletoe.Proofs.DocLevel']
 RULE = ('texts without tabs that do not end in a blank line (spec examples, mutations, splices, random documents, random '
         'strings); quote markers "> " and ">" (the latter only when no line starts with a space); list markers +, -, *, N., '
         'N) with padding 1-4, on texts that start with a non-space character and whose blank lines are empty, excluding '
@@ -39,9 +39,9 @@ RULE = ('texts without tabs that do not end in a blank line (spec examples, muta
 TRUSTED = ['the exporter (harness/export.py) as canonical AST observation']
 ASSUMPTIONS = ['list half: whitespace-only lines of the text are empty (a line with fewer columns than the marker width '
                'loses them inside an item, as the specification says)']
-PARTIAL = ['the theorems are about the block phase (parse buffer at every depth, looseness, definitions); that the token '
-           'constructors and the inline phase map equal buffers to equal trees is by construction of make_tokens (a function '
-           'of the buffer and the definitions) and is exercised by the exploration on the implementation',
+PARTIAL = ['the block-phase theorems are lifted to the token tree Document(lines) returns (Props/C04_Document.lean: one Quote / one '
+           'single-item List whose children are the children of the document of the text, same line numbers, same definitions) under '
+           'the same hypotheses',
            'quote half: "content is exactly B" carries the hypothesis that the parse of the text does not depend on '
            'Paragraph.parse_setext (false exactly for the recorded finding setext-in-quote)',
            'list half (_partial; general form in Props/C04_General.lean: marker at indentation 0-3, whitespace-only lines allowed): '
